@@ -157,6 +157,7 @@ class Sim:
         self.preempt = preempt
         self.stall_p = stall_p          # probability that a worker step is followed by a stall
         self.stall_max = 12.0
+        self.ioerr_hook = None          # (tag, detail) -> True: this durable operation fails with ENOSPC
         self.stall_boost = None         # (job tag suffix, probability[, substring of the submitting task's coroutine name])
         self.line_p = line_p            # line-granularity pre-emption probability (0 = off)
         self.loop_seam_p = loop_seam_p  # probability to run a worker step at a loop-thread seam
@@ -228,6 +229,11 @@ class Sim:
             self.stats['crash'] += 1
             self.dead = True
             raise SimCrash(tag)
+        if self.ioerr_hook is not None and self.ioerr_hook(tag, detail):
+            # a disk error (full disk): the operation fails, nothing of it is applied, the process lives on
+            self.log('IOERR', tag, self.dops)
+            self.stats['io_error'] += 1
+            raise OSError(28, 'No space left on device')
 
     def crash_now(self, why='external'):
         self.log('CRASH', why)
